@@ -24,7 +24,8 @@ def wl_arg(qu):
         return None
     import astropy.units as u
     w = np.array([O.fl(v) for v in qu['wl']])
-    return w * u.nm if qu.get('wl_unit') == 'nm' else w
+    unit = {'nm': u.nm, 'micron': u.micron, 'AA': u.AA, 'THz': u.THz, 'inv_micron': 1 / u.micron}.get(qu.get('wl_unit'))
+    return w if unit is None else w * unit
 
 
 def wl_angstrom(qu):
@@ -385,6 +386,15 @@ def gen_grid(rng, band):
         g = sorted({O.dy(rng, float(lo2), float(hi2) + 1, 3) for _ in range(n)})
     if rng.random() < 0.3:
         g = g[::-1]
+    if not nm and rng.random() < 0.3:
+        # the same set spelled as a Quantity in Angstrom, micron, frequency or wavenumber (the integrals are taken in
+        # Angstrom whatever the spelling; the model gets the Angstrom values the conversion yields)
+        wu = rng.choice(['AA', 'micron', 'THz', 'inv_micron'])
+        conv = {'AA': lambda x: x, 'micron': lambda x: F(float(x / 10000)), 'THz': lambda x: F(float(F(299792458, 100) / x)),
+                'inv_micron': lambda x: F(float(10000 / x))}[wu]
+        g2 = [conv(x) for x in g]
+        if len(set(g2)) == len(g2):
+            return qs(g2), wu
     return qs(g), ('nm' if nm else 'AA_number')
 
 
@@ -418,7 +428,8 @@ def gen_history(rng, c):
     """1-2 earlier calls on grids related to the ones the measured calls use"""
     bases = []          # (values, unit)
     for qu in c['queries']:
-        if qu.get('wl') is not None and (qu['wl'], qu.get('wl_unit')) not in [(qs(b[0]), b[1]) for b in bases]:
+        if qu.get('wl') is not None and (qu.get('wl_unit') or 'AA_number') in ('nm', 'AA_number') and \
+                (qu['wl'], qu.get('wl_unit')) not in [(qs(b[0]), b[1]) for b in bases]:
             bases.append(([unq(v) for v in qu['wl']], qu.get('wl_unit') or 'AA_number'))
     lf = c['band']['leaf']
     if lf['leaf'] == 'empirical':
